@@ -168,3 +168,112 @@ theorem parseSection_secBytes (s : Sec) (hc : s.cid.length = 36) (hsz : s.cid.le
   simp only [hlen, if_false, h36, hdr]
 
 end Car
+
+namespace Car
+open B
+
+/-! ### the byte parser recovers exactly the sections of an encoded CAR, with their true locations -/
+
+def WFSec (s : Sec) : Prop := s.cid.length = 36 ∧ s.cid.length + s.data.length < 268435456
+
+theorem get_secBytes (s : Sec) (rest : Bytes) (h : WFSec s) :
+    Varint.get (secBytes s ++ rest) 10 = some (s.cid.length + s.data.length, Varint.width (s.cid.length + s.data.length)) := by
+  unfold secBytes
+  have hw : Varint.width (s.cid.length + s.data.length) ≤ 10 := by have := width_le4 h.2; omega
+  rw [List.append_assoc, List.append_assoc, Varint.get_put _ _ 10 hw]
+
+theorem sections_encode : ∀ (secs : List Sec) (off fuel : Nat), (∀ s ∈ secs, WFSec s) → secs.length < fuel →
+    sections fuel (secs.map secBytes).flatten off = some (secs.zip (scan off secs))
+  | [], off, fuel, _, hf => by
+    obtain ⟨f, rfl⟩ : ∃ f, fuel = f + 1 := ⟨fuel - 1, by simp at hf; omega⟩
+    simp [sections, scan]
+  | s :: r, off, fuel, hwf, hf => by
+    obtain ⟨f, rfl⟩ : ∃ f, fuel = f + 1 := ⟨fuel - 1, by simp at hf; omega⟩
+    have hs := hwf s (List.mem_cons_self ..)
+    have hne : (List.map secBytes (s :: r)).flatten ≠ [] := by
+      simp only [List.map_cons, List.flatten_cons]
+      intro h
+      have := congrArg List.length h
+      simp only [List.length_append, secBytes_length, List.length_nil] at this
+      have hp := Varint.put_length_pos (s.cid.length + s.data.length)
+      unfold Varint.width at this
+      omega
+    simp only [List.map_cons, List.flatten_cons] at hne ⊢
+    -- unfold one step of `sections`
+    have hget := get_secBytes s (List.map secBytes r).flatten hs
+    cases hbs : secBytes s ++ (List.map secBytes r).flatten with
+    | nil => exact absurd hbs hne
+    | cons b bs =>
+      rw [← hbs]
+      unfold sections
+      rw [hbs]
+      simp only
+      rw [← hbs, hget]
+      simp only
+      -- the body
+      have hdrop : (secBytes s ++ (List.map secBytes r).flatten).drop (Varint.width (s.cid.length + s.data.length))
+          = s.cid ++ s.data ++ (List.map secBytes r).flatten := by
+        unfold secBytes
+        rw [List.append_assoc, List.append_assoc]
+        unfold Varint.width
+        rw [List.drop_left]
+        simp
+      have hbody : ((secBytes s ++ (List.map secBytes r).flatten).drop (Varint.width (s.cid.length + s.data.length))).take
+          (s.cid.length + s.data.length) = s.cid ++ s.data := by
+        rw [hdrop, ← List.length_append]
+        exact List.take_left
+      rw [hbody]
+      have hlen : ¬ ((s.cid ++ s.data).length < s.cid.length + s.data.length ∨ s.cid.length + s.data.length < 36) := by
+        have := hs.1
+        simp; omega
+      simp only [hlen, if_false]
+      have hrest : (secBytes s ++ (List.map secBytes r).flatten).drop
+          (Varint.width (s.cid.length + s.data.length) + (s.cid.length + s.data.length)) = (List.map secBytes r).flatten := by
+        have : Varint.width (s.cid.length + s.data.length) + (s.cid.length + s.data.length) = (secBytes s).length := by
+          rw [secBytes_length]; omega
+        rw [this, List.drop_left]
+      rw [hrest]
+      have ih := sections_encode r (off + Varint.width (s.cid.length + s.data.length) + (s.cid.length + s.data.length)) f
+        (fun x hx => hwf x (List.mem_cons_of_mem _ hx)) (by simp only [List.length_cons] at hf; omega)
+      rw [ih]
+      have h36 : (s.cid ++ s.data).take 36 = s.cid := by rw [← hs.1]; exact List.take_left
+      have hd36 : (s.cid ++ s.data).drop 36 = s.data := by rw [← hs.1]; exact List.drop_left
+      simp only [h36, hd36, scan, List.zip_cons_cons]
+      have hl : (secBytes s).length = Varint.width (s.cid.length + s.data.length) + (s.cid.length + s.data.length) := by
+        rw [secBytes_length]; omega
+      simp only [hl, Nat.add_assoc]
+
+/-- **the CAR reader is exact**: parsing the bytes of any well-formed CAR (header = uvarint(len) ‖ body) yields the
+    header size and every section with the offset and length at which it really sits -/
+theorem parse_encode (hbody : Bytes) (secs : List Sec) (hh : hbody.length < 268435456) (hwf : ∀ s ∈ secs, WFSec s) :
+    parse (encode (Varint.put hbody.length ++ hbody) secs)
+      = some ((Varint.put hbody.length ++ hbody).length, secs.zip (scan (Varint.put hbody.length ++ hbody).length secs)) := by
+  unfold parse headerLen encode
+  have hw : Varint.width hbody.length ≤ 10 := by have := width_le4 hh; omega
+  rw [List.append_assoc, Varint.get_put _ _ 10 hw]
+  have hlen : ¬ ((Varint.put hbody.length ++ (hbody ++ (List.map secBytes secs).flatten)).length < Varint.width hbody.length + hbody.length) := by
+    simp [Varint.width]
+  simp only [hlen, if_false]
+  have hdrop : (Varint.put hbody.length ++ (hbody ++ (List.map secBytes secs).flatten)).drop (Varint.width hbody.length + hbody.length)
+      = (List.map secBytes secs).flatten := by
+    rw [← List.append_assoc]
+    have : Varint.width hbody.length + hbody.length = (Varint.put hbody.length ++ hbody).length := by simp [Varint.width]
+    rw [this, List.drop_left]
+  rw [hdrop]
+  have hfuel : secs.length < (Varint.put hbody.length ++ (hbody ++ (List.map secBytes secs).flatten)).length + 1 := by
+    have : secs.length ≤ (List.map secBytes secs).flatten.length := by
+      clear hdrop hlen
+      induction secs with
+      | nil => simp
+      | cons s r ih =>
+        have := ih (fun x hx => hwf x (List.mem_cons_of_mem _ hx))
+        simp only [List.map_cons, List.flatten_cons, List.length_append, List.length_cons]
+        have hp := Varint.put_length_pos (s.cid.length + s.data.length)
+        have : 0 < (secBytes s).length := by rw [secBytes_length]; unfold Varint.width; omega
+        omega
+    simp only [List.length_append]
+    omega
+  rw [sections_encode secs _ _ hwf hfuel]
+  simp [Varint.width]
+
+end Car
